@@ -176,7 +176,9 @@ func (c *Case) c01Docs() []*xdoc.Doc {
 	docs := append([]*xdoc.Doc(nil), shapeDocs(n)...)
 	docs = append(docs, c.docPool("rand", nr, func(g *xgen.G) *xdoc.Doc { return g.Tree(xgen.DefaultTree()) })...)
 	// wide documents (fan-out 11-12 of same-named siblings on several levels): sibling positions with two digits
-	return append(docs, c.docPool("digit", 2, func(g *xgen.G) *xdoc.Doc { return g.DigitTree() })...)
+	docs = append(docs, c.docPool("digit", 2, func(g *xgen.G) *xdoc.Doc { return g.DigitTree() })...)
+	// narrow documents 10-33 levels deep
+	return append(docs, c.docPool("deep", 2, func(g *xgen.G) *xdoc.Doc { return g.DeepTree() })...)
 }
 
 // recordShape counts the iterator types of the compiled query (coverage evidence).
